@@ -186,7 +186,7 @@ class NameStream(Stream):
     name = "names"
     exhaustive = True
     rule = ("every name of length <=N over {L,I,C,E,N,S,.,-,x} (quick N=4, thorough N=5) plus every prefix/suffix/one-character "
-            "mutation of the 60 boundary names: the three generated pattern lists vs the model; oracle = the file/dir name "
+            "mutation of the 60 boundary names: `is_path_ignored` asked about a real file / directory / child of a directory of that name vs the model (whose pattern lists are regenerated from the code); oracle = the file/dir name "
             "clauses of the property text; non-trivial = name excluded by some rule")
 
     def cases(self, tier, rng):
@@ -203,22 +203,39 @@ class NameStream(Stream):
                 if i < len(b):
                     names.add(b[:i] + b[i + 1:])
                     names.add(b[:i] + b[i].swapcase() + b[i + 1:])
-        names = sorted(names)
+        names = sorted(n for n in names if n not in (".", "..") and "/" not in n and "\0" not in n)
         for i in range(0, len(names), 400):
             yield {"names": names[i:i + 400]}
 
     def impl(self, case):
+        # behavioural probe, not a look at the private pattern lists: a non-empty regular file called n, a directory called n, and a
+        # directory whose parent is called n are put on disk and `is_path_ignored` is asked about each (no VCS, no subset) -- so the
+        # stream survives any reorganisation of the name rules inside covered_files.py and sees what the walk sees
+        import shutil
+        import tempfile
+        from pathlib import Path
         from reuse import covered_files as cf
+        base = "/dev/shm" if os.path.isdir("/dev/shm") else None
+        top = Path(tempfile.mkdtemp(prefix="rv-c03-names-", dir=base))
         out = []
-        for n in case["names"]:
-            out.append("".join("1" if any(p.match(n) for p in pats) else "0"
-                               for pats in (cf._IGNORE_FILE_PATTERNS, cf._IGNORE_DIR_PATTERNS, cf._IGNORE_MESON_PARENT_DIR_PATTERNS)))
+        try:
+            for k, n in enumerate(case["names"]):
+                d = top / str(k)
+                (d / "f").mkdir(parents=True)
+                (d / "d" / n).mkdir(parents=True)
+                (d / "m" / n / "child").mkdir(parents=True)
+                (d / "f" / n).write_bytes(b"x\n")
+                out.append("".join("1" if cf.is_path_ignored(q) else "0" for q in (d / "f" / n, d / "d" / n, d / "m" / n / "child")))
+        finally:
+            shutil.rmtree(top, ignore_errors=True)
         return " ".join(out)
 
     def model_lines(self, case):
         return ["namerow\t" + enc_list(case["names"])]
 
     def oracle(self, case, impl_out):
+        if impl_out.startswith("EXC"):
+            return "crash: " + impl_out
         for n, bits in zip(case["names"], impl_out.split(" ")):
             if "\n" in n:
                 continue  # documented boundary: '$' and '.' treat a newline specially; no real file name has one in practice
@@ -234,9 +251,11 @@ class NameStream(Stream):
     def classify(self, case, failure):
         if failure.startswith("file-name-rule"):
             # only when *every* disagreeing name in the chunk is a CAL-1.0 / SHL-2.1 workaround name
-            from reuse import covered_files as cf
-            bad = [n for n in case["names"] if "\n" not in n and
-                   any(p.match(n) for p in cf._IGNORE_FILE_PATTERNS) != spec_file_name_excluded(n)]
+            got = self.impl(case)
+            if got.startswith("EXC"):
+                return None
+            bad = [n for n, bits in zip(case["names"], got.split(" ")) if "\n" not in n and
+                   (bits[0] == "1") != spec_file_name_excluded(n)]
             if bad and all(workaround_name(n) for n in bad):
                 return "c03-workaround-names"
         return None
